@@ -46,11 +46,13 @@ from mc.ref import cs_predict as P
 
 READY = True
 LEVEL = "model_checking"
-TECHNIQUE = "explicit-state BFS over clone / transform / extend / directive histories applied to one source schema, canonical state = structural dump + reference-identity facts, differential oracle against a plain-data model of each operation"
+TECHNIQUE = "exhaustive execution of clone / transform / extend / directive histories applied to one source schema (explicit-state search, canonical state = structural dump + identity and cache facts + derived indexes), differential oracles against a plain-data model of each operation and against the same operation on a pristine source"
 LEVEL_TEXT = (
     "All operation sequences up to the depth bound are executed on the real Schema objects (every explored trace is an "
     "implementation execution); after every step closure of the type graph, preservation against an independent model of the "
-    "operation and non-interference with the source are evaluated; states are deduplicated on a canonical digest of the source."
+    "operation, non-interference with the source (also after tampering with the result) and equality with the same operation on a "
+    "pristine source are evaluated; sequences are executed whether or not the canonical state changed, the canonical digest of the "
+    "source (dump, identity and cache facts, derived indexes, registries) only decides extension beyond the mandatory length."
 )
 LEVEL_NOTE = (
     "Trusted base: the plain-data model of the operations in mc/ref/cs_predict.py (self-tested), the extractor mc/ref/cs_model.dump "
@@ -69,6 +71,8 @@ ASSUMPTIONS = [
     "apply_schema_directives and fix_type_references work in place by design: for them the source itself is the result and the model of the source is updated",
     "a visibility predicate whose predicted result is not a valid schema (empty type, missing interface field) must make transform_schema raise; such results are not compared further",
     "extend_schema is expected to leave its input unmodified like the clone-based transforms (it returns a new Schema)",
+    "only the last operation of a history is judged (every prefix is a history of its own); between the steps the fixed query is executed on the source so that its lazy caches are populated",
+    "Schema._is_valid is not part of the deduplication key nor of digests of in-place results: the probes (running a query validates the schema) set it; the stale-memo invariant is checked separately",
     "field / argument names of the source are plain lower snake case, for which the camel-case rule is unambiguous",
     "names never collide after camel-casing",
 ]
